@@ -576,19 +576,19 @@ def simulate(model, time_arg, runs, np_seed, budget_s=600.0, *, parallel=False, 
     out_X, out_T, kept = [], [], []
     t_start = time.time()
     done = 0
-    ctx = contextlib.nullcontext()
+    sched = contextlib.nullcontext
     if parallel:
         try:
             import dask
             import dask.bag    # noqa
-            ctx = dask.config.set(scheduler="synchronous")
+            sched = lambda: dask.config.set(scheduler="synchronous")     # the setting is applied when the object is made: one per chunk
         except Exception as exc:
             out.error = "dask-missing"
             return out
     chunk = 0
     while done < runs:
         n = min(500, runs - done)
-        with contextlib.redirect_stdout(io.StringIO()), ctx:
+        with contextlib.redirect_stdout(io.StringIO()), sched():
             try:
                 X, J, T = model.solve_stochast(time_arg() if callable(time_arg) else time_arg, n, exact=True, full_output=True, parallel=parallel)
             except Exception as exc:
